@@ -470,6 +470,13 @@ pub unsafe extern "C" fn read(fd: c_int, buf: *mut c_void, n: size_t) -> ssize_t
         }
     }
     yield_point(K_READ);
+    // fault plan: the call is interrupted / fails before anything was read
+    if !IN_CHILD.load(Relaxed) && COUNTING.load(Relaxed) {
+        if let Some(e) = account(K_READ) {
+            set_errno(e);
+            return -1;
+        }
+    }
     ret_sys(libc::syscall(libc::SYS_read, fd, buf, n)) as ssize_t
 }
 
